@@ -3,7 +3,7 @@
    the harness, which takes the classes from the library's own whitelist). *)
 EXTENDS ExcTransport, Sequences, TLC, Json
 ArgShapes == {"none", "one_str", "str_int", "three_mixed", "nested_list", "big_int", "unicode", "none_value", "float_nan", "dict_arg"}
-AttrShapes == {"none", "one_int", "nested", "several", "unserialisable", "tuple_value"}
+AttrShapes == {"none", "one_int", "nested", "several", "unserialisable", "tuple_value", "dunder_named"}
 VARIABLE done
 GInit == done = FALSE /\ kind = "builtin" /\ carriable = TRUE /\ ck = "call"
 GNext == /\ ~done /\ done' = TRUE /\ UNCHANGED <<kind, carriable, ck>>
